@@ -26,6 +26,7 @@ type CloneCase struct {
 	Pick      int    `json:"pick"`      // which snapshot (mod count) is cloned; -1 = a name that does not exist
 	Interrupt string `json:"interrupt"` // "" | killclone (kill -9 the clone once during the copy and restart it) | shortchain (the clone process runs with MAX_CHAIN_LENGTH=2: create, open and the file copy work, its reload onto a copied chain of more than one snapshot fails)
 	KillAtMs  int    `json:"killat"`
+	Grow      int    `json:"grow,omitempty"` // Interrupt "resize": the new volume is grown by this many blocks while the clone is being made
 }
 
 type cloneObs struct {
@@ -93,6 +94,8 @@ type cloneInfo struct {
 	ReplicaMode     string `json:"replicamode"`
 	RevisionCounter string `json:"revisioncounter"`
 }
+
+func getCloneInfo2(ip string) (childInfo, error) { return getChildInfo(ip) }
 
 func getCloneInfo(ip string) (cloneInfo, error) {
 	var ci cloneInfo
@@ -248,6 +251,8 @@ func runCloneCase(cc CloneCase) (*Fail, []string, map[string]int, error) {
 	}()
 	deadline := t0.Add(60 * time.Second)
 	killed := false
+	resizeAsked := false
+	resizeDone := make(chan error, 1)
 	lastStatus, lastMode := "?", types.Mode("?")
 	sawCompleted := false
 	rwAt := time.Duration(0)
@@ -301,6 +306,13 @@ func runCloneCase(cc CloneCase) (*Fail, []string, map[string]int, error) {
 			// replica's persisted "inProgress" with its lock held while the replica
 			// waits for B's REST API): give it 20 s, then only the safety clauses count.
 			deadline = time.Now().Add(20 * time.Second)
+		}
+		if cc.Interrupt == "resize" && !resizeAsked && time.Since(t0) > time.Duration(cc.KillAtMs)*time.Millisecond && (strings.HasSuffix(status, "inProgress") || mode == types.WO) {
+			resizeAsked = true
+			labels["clone:resize-requested-during-clone"]++
+			newSize := (int64(cc.Blocks) + int64(cc.Grow)) * Blk
+			tr("t=%v resize of the new volume to %d requested (clone status %q, listed %q)", time.Since(t0).Round(10*time.Millisecond), newSize, status, mode)
+			go func() { resizeDone <- dst.C.Resize("vol", strconv.FormatInt(newSize, 10)) }()
 		}
 		if mode == types.RW {
 			rwAt = time.Since(t0)
@@ -386,6 +398,32 @@ func runCloneCase(cc CloneCase) (*Fail, []string, map[string]int, error) {
 		return fail("clone|never-completed", fmt.Sprintf("the clone was not made RW within 60 s: %v\nchild errors:\n%s\nchild stderr tail: %s", obs, strings.Join(tail(errLines, 12), "\n"), tailStr(child.errb.String(), 1200)), "C19"), x.Trace, labels, nil
 	}
 	labels["clone:completed"]++
+	if resizeAsked {
+		// the grow request waits for the clone to be finished (or is refused); then the
+		// volume has the new size everywhere or the old one everywhere
+		var rerr error
+		select {
+		case rerr = <-resizeDone:
+		case <-time.After(30 * time.Second):
+			return fail("clone|resize-hangs", "the resize requested during the clone did not return within 30 s after the clone completed", "C19", "C14"), x.Trace, labels, nil
+		}
+		tr("resize returned %v", rerr)
+		if rerr == nil {
+			labels["clone:resized"]++
+			newSize := (int64(cc.Blocks) + int64(cc.Grow)) * Blk
+			want = want.Clone()
+			want.Grow(newSize)
+			readBuf = make([]byte, newSize)
+			ci, cerr := getCloneInfo2(cloneIP)
+			if cerr == nil {
+				for _, f := range ci.Chain {
+					if fi, err := os.Stat(filepath.Join(cloneDir, f)); err == nil && fi.Size() != newSize {
+						return fail("clone|resize-during-clone|chain-file-size", fmt.Sprintf("the new volume was grown to %d while the clone was being made; chain file %s of the clone has size %d", newSize, f, fi.Size()), "C19", "C16"), x.Trace, labels, nil
+					}
+				}
+			}
+		}
+	}
 	// the clone holds exactly the snapshot image
 	n, err := dst.C.ReadAt(readBuf, 0)
 	if err != nil || n != len(readBuf) {
@@ -436,6 +474,10 @@ func genCloneCase(t *rapid.T) CloneCase {
 		cc.KillAtMs = rapid.IntRange(0, 3000).Draw(t, "killat")
 	case 3:
 		cc.Interrupt = "shortchain"
+	case 4, 5:
+		cc.Interrupt = "resize"
+		cc.KillAtMs = rapid.IntRange(0, 2500).Draw(t, "resizeat")
+		cc.Grow = rapid.IntRange(1, 16).Draw(t, "grow")
 	}
 	return cc
 }
